@@ -12,6 +12,7 @@ Accepted:
                arguments)
 Types: Q (float), Z (int), B (bool), OQ (Optional[float])."""
 import ast
+import copy
 import os
 import sys
 from fractions import Fraction
@@ -295,13 +296,28 @@ class Tr:
         if u.effects or u.tail:
             # effect blocks: a statement whose source text is pinned in the unit spec is replaced by the statement that stands for
             # it (each must occur exactly once); anything else that only has effects stays unsupported
+            def canon(text_or_node):
+                """the statement's text with the variable of a leading `for` renamed to a fixed name (the pinned text is compared up to
+                the name of its loop variable)"""
+                n = ast.parse(text_or_node).body[0] if isinstance(text_or_node, str) else text_or_node
+                if isinstance(n, ast.For) and isinstance(n.target, ast.Name):
+                    old_name = n.target.id
+                    used = {x.id for x in ast.walk(n) if isinstance(x, ast.Name)}
+                    if "_lv" not in used:
+                        n = copy.deepcopy(n)
+                        for x in ast.walk(n):
+                            if isinstance(x, ast.Name) and x.id == old_name:
+                                x.id = "_lv"
+                return ast.unparse(n)
+            pinned = {canon(k): k for k in u.effects}
             found = {k: 0 for k in u.effects}
 
             class Eff(ast.NodeTransformer):
                 def visit(self, n):
-                    if isinstance(n, ast.stmt) and not isinstance(n, ast.FunctionDef) and ast.unparse(n) in found:
-                        found[ast.unparse(n)] += 1
-                        return ast.parse(u.effects[ast.unparse(n)]).body[0]
+                    if isinstance(n, ast.stmt) and not isinstance(n, ast.FunctionDef) and canon(n) in pinned:
+                        k = pinned[canon(n)]
+                        found[k] += 1
+                        return ast.parse(u.effects[k]).body[0]
                     return self.generic_visit(n)
             fn = Eff().visit(fn)
             missing = [k.splitlines()[0] for k, c in found.items() if c != 1]
@@ -387,6 +403,15 @@ RESUME_EFFECT = """for m in self.target_markets.values():
         self.halting_time_started = 0"""
 
 
+def _guards_to_ifs(fn):
+    """guard clauses and `continue` guards back to nested ifs (harness/pynorm.py steps 3, 3b): meaning-preserving"""
+    import pynorm
+    fn = copy.deepcopy(fn)
+    fn.body = pynorm.flips(pynorm.guards([q for q in fn.body if not (isinstance(q, ast.Expr) and isinstance(q.value, ast.Constant)
+                                                                      and isinstance(q.value.value, str))]))
+    return fn
+
+
 def halt_units():
     """TradingHaltRule: the two decisions (C16).  What the rule does once it has decided - stop / restart the market, flip the
     session's switch, remember market and session, count - is modelled by hand (Sim.halt_after_execution / halt_before_step); its
@@ -399,12 +424,12 @@ def halt_units():
                          "self.trigger_change_rate": ("rate", "Q"), "self.activation_count": ("count", "Z"),
                          "market.is_running": ("running", "B"), "__in_targets": ("in_targets", "B")},
                  objects={"market": "simulator.id2market[execution_log.market_id]"},
-                 effects={HALT_EFFECT: "return __in_targets"}, tail="return False")
+                 effects={HALT_EFFECT: "return __in_targets"}, tail="return False", rewrite=_guards_to_ifs)
     before = Unit(f, "TradingHaltRule", "hooked_before_step_for_market", "resume_decision_gen",
                   params={"simulator": ("simulator", "OBJ"), "market": ("market", "OBJ")}, ret="B",
                   mapped={"market.get_time()": ("time", "Z"), "self.halting_time_started": ("started", "Z"),
                           "self.halting_time_length": ("len", "Z"), "__in_targets": ("in_targets", "B")},
-                  effects={RESUME_EFFECT: "return __in_targets"}, tail="return False")
+                  effects={RESUME_EFFECT: "return __in_targets"}, tail="return False", rewrite=_guards_to_ifs)
     return [after, before]
 
 
